@@ -64,7 +64,7 @@ def fault_sweep_tie(kinds=None, per_kind_quick=4, per_kind_thorough=40, name='fa
         out = []
         n = per_kind_quick if tier == 'quick' else per_kind_thorough
         for k in (kinds or FAULTS):
-            needs_inc = 'include' in k or k in ('cross_file',)
+            needs_inc = 'include' in k or k in ('cross_file', 'dup_label_same_line')
             prof = dict(PROFILES['general'], p_fault=1.0, force_fault=k, p_include=1.0 if needs_inc else 0.3)
             got = 0
             for _ in range(n * 6):
@@ -80,12 +80,14 @@ def fault_sweep_tie(kinds=None, per_kind_quick=4, per_kind_thorough=40, name='fa
                classify=lambda c: c.get('fault') or 'none', shard=60, timeout=60)
 
 
-def cli_gen(profile, n_quick, n_thorough):
+def cli_gen(profile, n_quick, n_thorough, relative=False):
     def gen(rng, tier):
         n = n_quick if tier == 'quick' else n_thorough
         out = []
         for _ in range(n):
             c = gen_program(rng, PROFILES[profile], tier)
+            if relative and rng.random() < 0.7:
+                c['cli_relative'] = True
             # command-line edge values of the window options
             r = rng.random()
             if r < 0.35:
@@ -98,11 +100,11 @@ def cli_gen(profile, n_quick, n_thorough):
     return gen
 
 
-def cli_tie(profile='C03', n_quick=80, n_thorough=1200):
+def cli_tie(profile='C03', n_quick=80, n_thorough=1200, relative=False):
     """same programs through the real command line; the model side ignores listing rows"""
     return Tie(name=f'cli_{profile}', imports=['Base', 'Program'],
                run_def='fun c => match run_prog c with Some (img, _) => Some (img, ([] : list (Z * list Z))) | None => None end',
-               eqb='obs_prog_eqb', gen=cli_gen(profile, n_quick, n_thorough), impl=sysgen.impl_cli,
+               eqb='obs_prog_eqb', gen=cli_gen(profile, n_quick, n_thorough, relative), impl=sysgen.impl_cli,
                case_term=sysgen.case_term, obs_term=sysgen.obs_term_image_only, nontrivial=nontrivial,
                classify=lambda c: 'end=%s' % ('none' if c['opts']['end'] is None else ('0' if c['opts']['end'] == 0 else 'n')),
                shard=60, timeout=90)
@@ -131,6 +133,14 @@ def macro_scenario_tie(n_quick=150, n_thorough=3000):
                gen=lambda rng, tier: [sysisa.gen_macro_scenario(rng, None, tier) for _ in range(n_quick if tier == 'quick' else n_thorough)],
                impl=sysgen.impl_assemble, case_term=sysisa.isa_case_term, obs_term=sysgen.obs_term,
                nontrivial=lambda c: True, classify=lambda c: 'macro-scenario', shard=40, timeout=60)
+
+
+def constraint_scenario_tie(n_quick=150, n_thorough=3000):
+    from . import sysisa
+    return Tie(name='constraint_scenarios', imports=['Base', 'Program', 'Match', 'ProgramIsa'], run_def='run_prog_isa', eqb='obs_prog_eqb',
+               gen=lambda rng, tier: [sysisa.gen_constraint_scenario(rng, None, tier) for _ in range(n_quick if tier == 'quick' else n_thorough)],
+               impl=sysgen.impl_assemble, case_term=sysisa.isa_case_term, obs_term=sysgen.obs_term,
+               nontrivial=lambda c: True, classify=lambda c: 'addr%d' % c['cfg']['addr_bits'], shard=40, timeout=60)
 
 
 def _paste_check(pair):
